@@ -105,6 +105,8 @@ class Gamma:
             return NUMSTR[k] if k < len(NUMSTR) else str(1000 + k)
         if nk == "mixed":  # numbers and strings together (only for operations that never compare labels)
             return int(k) if k % 2 == 0 else f"n{k}"
+        if nk == "negint":  # negative ints: hash(-1) == hash(-2) in CPython
+            return -(int(k) + 1)
         if nk == "bigint":  # a fresh int object at every occurrence (equal, not identical)
             return int(str(1000 + int(k)))
         if nk == "obj":  # hashable by identity only: the same object at every occurrence
@@ -143,6 +145,9 @@ class Gamma:
             elif nk == "numstr":
                 if isinstance(lab, str):
                     return NUMSTR.index(lab) if lab in NUMSTR else int(lab) - 1000
+            elif nk == "negint":
+                if isinstance(lab, (int, np.integer)) and not isinstance(lab, bool) and int(lab) < 0:
+                    return -int(lab) - 1
             elif nk == "bigint":
                 if isinstance(lab, (int, np.integer)) and not isinstance(lab, bool) and int(lab) >= 1000:
                     return int(lab) - 1000
